@@ -72,6 +72,8 @@ pub struct Stepper {
     blockable: bool,
     pub trace: Trace,
     pub probes: Probes,
+    /// more than 20000 output events came out of one tick (see `drain`)
+    pub flood: bool,
     pub tick_err: Option<String>,
     sleep_base: u64,
     custom_dropped_base: u64,
@@ -134,6 +136,7 @@ impl Stepper {
             blockable: false,
             trace: Trace::default(),
             probes: Probes::default(),
+            flood: false,
             tick_err: None,
             sleep_base: kanata_verif_rt::inactive_slept_ns(),
             custom_dropped_base: kanata_keyberon::layout::VERIF_CUSTOM_EVENTS_DROPPED.load(std::sync::atomic::Ordering::Relaxed),
@@ -175,6 +178,25 @@ impl Stepper {
             return;
         }
         let evs = std::mem::take(&mut self.k.kbd_out.outputs.events);
+        // the recorder also keeps a formatted log that grows with every output (hundreds of MB
+        // over a long run of continuous scrolling); nothing here reads it
+        if !evs.is_empty() {
+            self.k.kbd_out.log = kanata_state_machine::oskbd::LogFmt::new();
+        }
+        if evs.len() > 100 && std::env::var("KSIM_OUTRATE").is_ok() {
+            eprintln!("tick {}: {} output events, e.g. {:?}", self.now, evs.len(), &evs[..6.min(evs.len())]);
+        }
+        // A dynamic macro replayed with its recorded delays fast-forwards them: a recorded pause of
+        // up to 65535 ms is run through inside one tick_ms call. With something that outputs in
+        // every tick (scrolling) and a macro that re-triggers itself that is tens of thousands of
+        // events per simulated ms - bounded, but more than a run can keep. Such a run is marked and
+        // its outputs are not kept; the checks that can meet it skip it.
+        let evs = if evs.len() > 20_000 {
+            self.flood = true;
+            evs.into_iter().take(64).collect()
+        } else {
+            evs
+        };
         for s in evs {
             if let Some(mut e) = parse_out(self.now, &s) {
                 e.in_idx = self.last_in;
@@ -290,6 +312,9 @@ impl Stepper {
     pub fn gap(&mut self, n: u64) {
         let mut i = 0;
         while i < n {
+            if self.flood {
+                return;
+            }
             if self.owed_tick {
                 // the wake-up iteration: event handled, then exactly one tick, no can-block call
                 self.owed_tick = false;
@@ -436,6 +461,10 @@ impl Stepper {
 
     pub fn run_ops(&mut self, ops: &[Op]) {
         for (i, op) in ops.iter().enumerate() {
+            if self.flood {
+                // (see `drain`: the rest of such a run is not simulated)
+                break;
+            }
             self.apply(i, op);
         }
     }
